@@ -778,7 +778,19 @@ def check_ds_shape(ctx):
             (txt(n.ast) == 'bins' and lab == 'false') or
             (txt(n.ast).replace(' ', '') in ('len(bins)==0',) and
              lab == 'true')) for n, lab in path)
-        if given and not empty and not any(
+        # the test written per dimension, inside a loop over the bins
+        # (`for coord, dim in zip(bins.values(), value.shape): if len(coord)
+        # not in (dim, dim + 1): raise`): going through the loop IS the test
+        looped = any(
+            n.kind == 'iter' and 'bins' in txt(n.ast.iter) and any(
+                isinstance(t, ast.If) and 'len(' in txt(t.test) and any(
+                    isinstance(r, ast.Raise) for r in t.body) and any(
+                        isinstance(c, ast.Compare) and isinstance(
+                            c.ops[0], (ast.NotIn, ast.In))
+                        for c in ast.walk(t.test))
+                for t in ast.walk(n.ast))
+            for n, lab in path)
+        if given and not empty and not looped and not any(
                 is_bins_len_test(n) and lab == 'false' and
                 raises_on(n, 'true') for n, lab in path):
             ok = False
